@@ -16,6 +16,7 @@ import Snmp.Model.Pyth
 import Snmp.Model.Table
 import Snmp.Model.Udp
 import Snmp.Model.Trap
+import Snmp.Model.Disco
 open Lean Snmp
 
 namespace Driver
@@ -423,6 +424,25 @@ def trapRun (j : Json) : Except String Json := do
       | none => Json.null] : Array Json)
   pure (Json.mkObj [("deliveries", toJson out)])
 
+/-! ### disco.run -/
+def discoRun (j : Json) : Except String Json := do
+  let ctx ← bytesOfJson (← j.getObjVal? "ctx")
+  let eid ← bytesOfJson (← j.getObjVal? "engine_id")
+  let evsJ ← (← j.getObjVal? "events").getArr?
+  let evs ← evsJ.toList.mapM fun e => do
+    let a ← e.getArr?
+    match (a[0]?.getD Json.null).getStr? with
+    | .ok "request" => pure Disco.Ev.request
+    | .ok "advance" => pure (Disco.Ev.advance (← (a[1]?.getD Json.null).getNat?))
+    | .ok "reboot" => pure Disco.Ev.reboot
+    | .ok "request-bad-reply" => pure Disco.Ev.requestBadReply
+    | _ => throw "bad event"
+  let (_, trace) := Disco.run ctx (Disco.init eid (← getNat j "boots") (← getNat j "start")) evs
+  let wj : Disco.Wire → Json
+    | .probe => toJson (#[toJson "probe"] : Array Json)
+    | .req e c b t iw => toJson (#[toJson "req", toJson (toHex e), toJson (toHex c), toJson b, toJson t, toJson iw] : Array Json)
+  pure (Json.mkObj [("trace", toJson (trace.map wj))])
+
 def handle (j : Json) : Except String Json := do
   let op ← j.getObjValAs? String "op"
   match op with
@@ -438,6 +458,7 @@ def handle (j : Json) : Except String Json := do
   | "ops.run" => opsRun j
   | "cfg.run" => cfgRun j
   | "py.wrap" => pyWrap j
+  | "disco.run" => discoRun j
   | "trap.run" => trapRun j
   | "udp.run" => udpRun j
   | "tablify" => tablifyOp j
